@@ -352,7 +352,7 @@ def main():
         }],
         "checks": checks,
         "not_applicable": na,
-        "notes": "exit 0 held / 1 VIOLATION / 3 harness or engine problem (never a VIOLATION). Known findings and fixes: chx/known_findings.json.",
+        "notes": "exit 0 held / 1 VIOLATION / 3 harness or engine problem (never a VIOLATION). Known findings and fixes: chx/known_findings.json. The thorough tier runs the quick instances first and then the deeper ones under a wall budget (720 s per property, VERIF_BUDGET_S overrides); instances not started by then are recorded as skipped in the evidence.",
     }
     with open(os.path.join(ROOT, "MANIFEST.json"), "w") as fh:
         json.dump(man, fh, indent=1)
